@@ -19,7 +19,7 @@ META = {
     "outside": "real kernel sockets; bufsize values other than listed (passed through unchanged)",
     "assumptions": ["recv contract of the double: 1..bufsize bytes while data remain, b'' once the peer closed, TimeoutError/OSError at any call"],
 }
-WALL_BUDGET = {"quick": 480, "thorough": 3000}
+WALL_BUDGET = {"quick": 900, "thorough": 3000}
 
 
 def jobs(tier, seed):
